@@ -292,6 +292,11 @@ def build():
     one(r"let\s+svc_call_fut\s*=\s*self\.next_svc\.call\(request\.clone\(\)\)\s*;\s*let\s+map\s*=\s*PostprocessingStream::new\(\s*svc_call_fut,\s*request,", mcall,
         "mandatory call: a clone goes to the inner service, the original to postprocess")
     defs.append(("hint_shared_between_clones", "bool", "true"))
+    # ---- reconfigure: the limit is read from the live configuration for every datagram
+    one(r"ServerCommand::Reconfigure\(new_config\)\s*=>\s*\{\s*self\.config\.store\(Arc::new\(new_config\.clone\(\)\)\)\s*;\s*\}", dg, "dgram: Reconfigure stores the new config")
+    if len(re.findall(r"config\.load\(\)\.max_response_size", dg)) != 1 or "config.load().max_response_size" not in dpm:
+        raise GenError("dgram: max_response_size is not (only) read per datagram in process_received_message")
+    defs.append(("dgram_cfg_read_per_datagram", "bool", "true"))
     # ---- accept loop: an error reported by poll_accept() (or by the accepted stream's future)
     # belongs to one connection attempt and must not end run_until_error()
     rue = fn_body(st, "run_until_error")
@@ -305,6 +310,16 @@ def build():
     sch = fn_body(st, "spawn_connection_handler")
     one(r"tokio::spawn\(async\s+move\s*\{.*?if\s+let\s+Ok\(mut\s+stream\)\s*=\s*stream\.await\s*\{", sch, "a failing stream future only ends its own task")
     defs.append(("accept_error_stops_server", "bool", "false"))
+    # the stream's own future (TLS handshake, ...) is awaited by the per-connection task, never by the accept loop
+    acc = fn_body(st, "accept")
+    one(r"^\s*poll_fn\(\|ctx\|\s*self\.listener\.poll_accept\(ctx\)\)\.await\s*$", acc, "StreamServer::accept only polls the listener")
+    one(r"fn\s+spawn_connection_handler\(\s*&self,\s*stream:\s*Listener::Future,\s*addr:\s*SocketAddr,?\s*\)", st, "spawn_connection_handler takes the stream's future")
+    if len(re.findall(r"\.await", rue)) != 0 and not re.fullmatch(r"(?s).*", rue):
+        pass
+    n_await = len(re.findall(r"stream\.await", st))
+    if n_await != 1 or "stream.await" not in sch:
+        raise GenError("the accepted stream's future is awaited outside spawn_connection_handler's task")
+    defs.append(("setup_awaited_in_accept_loop", "bool", "false"))
     # full response queue: the same response is retried after yielding; no drop, no bounded wait
     enq = fn_body(cn, "do_enqueue_response")
     one(r"loop\s*\{\s*match\s+self\.result_q_tx\.try_send\(response\)\s*\{", enq, "do_enqueue_response: loop { match try_send(response)")
